@@ -16,7 +16,7 @@ SPEC = {
                           "C14_new_vertex_position_full", "C14_insertVertex_beta_structure",
                           "C14_old_vertices_unchanged", "C14_old_vertices_unchanged_single",
                           "C14_old_vertices_keep_coordinates", "C14_old_vertices_keep_coordinates_single",
-                          "C14_undefined_edge_iff", "C14_undefined_edge_iff_single"],
+                          "C14_undefined_edge_iff", "C14_undefined_edge_iff_single", "C14_no_second_end_single"],
     "trusted_base": [
         "Lean 4.33 kernel; axioms propext, Classical.choice, Quot.sound only",
         "hand-written model Honeycomb/Model/Kernels/{Geom2,VertexInsertion}.lean (+ Stm, Map, Ops, Ops2) tied to /repo by the "
@@ -44,8 +44,12 @@ SPEC = {
     "not_proved": [
         "UndefinedEdge is now an exact characterisation (C14_undefined_edge_iff, C14_undefined_edge_iff_single, Props/C14d.lean: "
         "when the earlier checks pass the answer is UndefinedEdge iff the edge has no second end point or one end point has no value "
-        "under its vertex id; then nothing is written); left out: insert_vertex_on_edge on a dart with NO second end point (beta1 = "
-        "beta2 = 0), where the kernel reads the slot of the null dart's identifier — covered by the oracle only",
+        "under its vertex id; then nothing is written). insert_vertex_on_edge on a dart with NO second end point (beta1 = beta2 = 0) "
+        "is C14_no_second_end_single: the kernel reads the slot of the null dart's vertex id (slot 0); UndefinedEdge, nothing "
+        "written, iff the dart's vertex or slot 0 is empty — always, unless a value was force-written at the null dart; with such a "
+        "value it never answers UndefinedEdge and an Ok has executed link::<1>(nd1, NULL): beta0(0) = nd1, result NOT well formed "
+        "(example exMapZ; outside the guard: needs a vertex stored at the null dart, exercised by the malformed stream). Together the "
+        "three theorems leave no dart out",
     ],
 }
 
